@@ -1620,6 +1620,8 @@ class AEval(dtable.Eval):
                 return self.apply(args[0], [r[2][0]]) if r[1] == "Ok" else r
             if m in ("unwrap_or",) and len(args) == 1:
                 return r[2][0] if r[1] == "Ok" else args[0]
+        if m == "collect" and (r[0] == "list" or r == DEFAULT) and re.match(r"^(::)?<(std::result::|core::result::)?Result<", re.sub(r"\s+", "", e.get("turbofish") or "")) and not (r[0] == "list" and r[1]):
+            return C("Ok", L())        # no items: an empty collection, successfully
         if m == "collect" and r[0] == "list" and r[1] and all(x[0] == "ctor" and x[1] in ("Ok", "Err") for x in r[1]) and "Result" in (e.get("turbofish") or ""):
             for x in r[1]:
                 if x[1] == "Err":
